@@ -1005,3 +1005,11 @@ add("C12", "benign-uri-through-single-return-helper", SG,
      ("    @classmethod\n    def from_sarif(cls, sarif_location) -> Self:\n        artifact_location = sarif_location[\"physicalLocation\"][\"artifactLocation\"]\n        file = ",
       "    @staticmethod\n    def _artifact_path(artifact_location) -> Path:\n        return Path(artifact_location[\"uri\"])\n\n    @classmethod\n    def from_sarif(cls, sarif_location) -> Self:\n        artifact_location = sarif_location[\"physicalLocation\"][\"artifactLocation\"]\n        file = ")],
     "silent")
+BP = "codemodder/project_analysis/file_parsers/base_parser.py"
+add("C10", "manifest-loop-inside-one-try", BP,
+    [("        for file in req_files:\n            try:\n                store = self._parse_file(file)\n            except Exception as e:\n                logger.debug(\"Error parsing file: %s\", file, exc_info=e)\n                continue\n\n            if store:\n                stores.append(store)\n",
+      "        try:\n            for file in req_files:\n                store = self._parse_file(file)\n                if store:\n                    stores.append(store)\n        except Exception as e:\n            logger.debug(\"Error parsing files\", exc_info=e)\n")],
+    "fire", "R-EVERY-INPUT-READ", "BaseParser.parse")
+add("C14", "manifest-loop-stops-at-first-bad-file", BP,
+    [("                logger.debug(\"Error parsing file: %s\", file, exc_info=e)\n                continue\n", "                logger.debug(\"Error parsing file: %s\", file, exc_info=e)\n                break\n")],
+    "fire", "R-EVERY-INPUT-READ", "BaseParser.parse")
